@@ -946,6 +946,27 @@ func (f *Frame) Seq(v ssa.Value, at ssa.Instruction) ([]Elem, bool) {
 		if isFullSlice(x) {
 			return f.Seq(x.X, at)
 		}
+	case *ssa.Extract:
+		if cf, rets, ok := f.tupleReturns(x); ok {
+			var out []Elem
+			for i, ret := range rets {
+				s, ok := cf.Seq(ret.Results[x.Index], ret)
+				if !ok {
+					return nil, false
+				}
+				if i == 0 {
+					out = s
+				} else if !seqEqual(out, s) {
+					f.A.why("helper %s returns buffers with different contents", cf.Fn.Name())
+					return nil, false
+				}
+			}
+			if !f.onlyBenign(x) {
+				f.A.why("%s: the returned buffer is modified or retained afterwards", expr(x, 0))
+				return nil, false
+			}
+			return out, true
+		}
 	case *ssa.Call:
 		cc := x.Common()
 		if b, isB := cc.Value.(*ssa.Builtin); isB && b.Name() == "append" {
